@@ -357,6 +357,11 @@ func c09GenFipValue(r *hx.Rand, ff *c09FipField, depth int) interface{} {
 		l := []interface{}{}
 		for k := 0; k < r.Range(0, 3); k++ {
 			if composite {
+				if r.Chance(1, 6) {
+					// a null element among the objects: passed over, the others keep their indices
+					l = append(l, nil)
+					continue
+				}
 				l = append(l, obj())
 			} else {
 				l = append(l, "v")
